@@ -28,7 +28,9 @@ def facts : DebugLoopFacts :=
     -- 0a3a691: SetBreakpoints marks every step (isStep) of a requested line that is in cfgNodes(root); no getExec
     placement := "reachable-steps",
     stepKinds := ["breakStmt", "continueStmt", "fallthroughStmt", "gotoStmt"],
-    cfgKinds := ["funcType", "constDecl", "varDecl"] }
+    cfgKinds := ["funcType", "constDecl", "varDecl"],
+    -- Debug → setProgram keeps the forwarding closures recorded while compiling (seed C19-4 replaces the debug data)
+    debugDataKept := true }
 
 /-- the facts before 0a3a691 (first candidate in walk order, reported whenever it is about to run),
     kept for the examples that reproduce F19-3 … F19-7 -/
@@ -64,6 +66,7 @@ def sourceHashes : List (String × String) :=
    ("node.setBreakOnLine", "f42e739c506063d0"),
    ("node.setBreakOnCall", "0b55432840c1b558"),
    ("node.Walk", "d0ed2a2c9f1de374"),
+   ("node.setProgram", "160c3265a7121142"),              -- tied after seed C19-4
    ("setExec", "5d0d0940aba27548"),           -- 3d77a98
    ("setForwardExec", "dba5675e0de46456"),    -- new in 3d77a98
    ("getExec", "5f3f6e86261d4245")]
